@@ -139,6 +139,10 @@ func init() {
 		Families: func(c *mon.Config) []mon.Family {
 			return []mon.Family{
 				{Name: "cold-start", N: 1, Serial: true, Run: func(w *mon.W, _ int) {
+					if !coldFirst(w, coldSizeCalls()) {
+						return
+					}
+					defer coldLast(w, coldSizeCalls())
 					c20Observe(w, nil, 0, "nil")
 					c20Observe(w, 0, 8, "cold")
 					c20Observe(w, "", c20Str, "cold")
